@@ -2078,6 +2078,54 @@ func checkTransformReqs(p *core.Prog, r *core.Result, tr *ssa.Function) {
 		}
 	})
 	if oldProjects == nil {
+		// or built by a helper (rootProjectOf(root) returns the root project and the names by path)
+		core.Instrs(tr, func(in ssa.Instruction) {
+			c, ok := in.(*ssa.Call)
+			if !ok {
+				return
+			}
+			h := core.Callee(c)
+			if h == nil || !core.InModule(h) || h.Blocks == nil {
+				return
+			}
+			built := map[ssa.Value]bool{}
+			core.Instrs(h, func(hin ssa.Instruction) {
+				if mu, ok := hin.(*ssa.MapUpdate); ok {
+					if _, isSlice := mu.Value.Type().Underlying().(*types.Slice); isSlice {
+						built[mu.Map] = true
+					}
+				}
+			})
+			if len(built) == 0 {
+				return
+			}
+			idx, all := -1, true
+			for _, hr := range core.ReturnsOf(h) {
+				found := false
+				for j, v := range core.RetVals(hr) {
+					if built[v] && (idx == -1 || idx == j) {
+						idx, found = j, true
+					}
+				}
+				if !found {
+					all = false
+				}
+			}
+			if idx < 0 || !all {
+				return
+			}
+			if h.Signature.Results().Len() == 1 {
+				oldProjects = c
+				return
+			}
+			for _, ref := range *c.Referrers() {
+				if e, ok := ref.(*ssa.Extract); ok && e.Index == idx {
+					oldProjects = e
+				}
+			}
+		})
+	}
+	if oldProjects == nil {
 		r.Unk("R11.2", "internal/mvs.transformReqs#old-names", p.Pos(tr.Pos()), "map from project path to its existing requirement names not found")
 		return
 	}
